@@ -242,9 +242,9 @@ CleanTool(e) ==
   \cup (IF e.a.state # e.b.state THEN {<<"clean_changed_the_database", "">>} ELSE {})
 
 (* C08 / C02: a pair of declarations in both arrival orders *)
-GlobDecls == {"glob_txt", "glob_dtxt", "glob_named"}
+GlobDecls == {"glob_txt", "glob_dtxt", "glob_named", "glob_sub"}
 ProductDecls == {"step1_out_b", "step3_out_dnew", "step6_out_b", "step6_vol_b", "amend_out_b", "amend_vol_dnew",
-                 "step2_inp_a_out_c"}
+                 "step2_inp_a_out_c", "step7_out_r"}
 
 PairRejected(r) == r.a[1] # "ok" \/ r.b[1] # "ok"
 PairComplete(r) == r.a[1] # "none" /\ r.b[1] # "none"
@@ -254,7 +254,9 @@ PairOrdersC08(e) ==
        THEN {<<"conflict_rejected_in_one_order_only", <<e.info.decl_a, e.info.decl_b>>,
                \* F11: a pattern is only checked against the matches recorded on disk, so a step
                \* output that does not exist yet is accepted when the step is defined first
-               IF (e.info.a \in GlobDecls /\ e.info.b \in ProductDecls) \/ (e.info.b \in GlobDecls /\ e.info.a \in ProductDecls)
+               \* (only that direction: the order product-then-pattern is the accepted one)
+               IF \/ e.info.a \in GlobDecls /\ e.info.b \in ProductDecls /\ PairRejected(e.ab) /\ ~PairRejected(e.ba)
+                  \/ e.info.b \in GlobDecls /\ e.info.a \in ProductDecls /\ PairRejected(e.ba) /\ ~PairRejected(e.ab)
                THEN "F11-glob-after-planned-output-accepted" ELSE "">>}
        ELSE {}
 PairOrdersC02(e) ==
